@@ -541,6 +541,12 @@ def _canon(f):
     return f
 
 
+
+@rule("C12.defuse", "anchored files: every parameter is read, no value is computed and dropped (generic def-use detectors, triaged hit list)", floor=2)
+def defuse(rc):
+    from . import shared as _sh
+    _sh.defuse_rule(rc, _sh.anchor_files("C12"))
+
 MUTANTS = [
     dict(kind="break", name="r1-one-direction", file=PCF, expect="C12.rules",
          old="if not pdag.has_edge(X, Y) and not pdag.has_edge(Y, X):", new="if not pdag.has_edge(X, Y):"),
